@@ -91,6 +91,8 @@ fn verify_client_connected(
     info!("Connected to server.");
     client_state.set(ClientState::Connected);
     if !tracker.host_promotion_in_progress {
+        // a new session: what was despawned during an earlier one is decided by the snapshot
+        tracker.despawned_locally.clear();
         cmd.add(|world: &mut World| {
             info!("Starting new client session and requesting initial sync.");
             world.resource_mut::<ClientPresendInitialSync>().messages =
